@@ -24,16 +24,22 @@ def find_serve(ctx):
     if len(cands) != 1:
         raise FailClosed("public entry point `serve` not found uniquely (%d candidates)" % len(cands))
     serve = cands[0]["path"]
-    body = ctx.body(serve)
+    # the inner function: reachable from `serve` through crate-local calls, takes the request's method and header map, and
+    # returns a crate-local enum one of whose variants carries a finished http::Response (the "instruction" for serve)
+    from .common import reachable_bodies
     inner = []
-    for i, t in ctx.facts.calls(body):
-        c = t["callee"]
-        rp = c.get("res_path")
-        if c.get("res_local") and rp in ctx.facts.bodies and len(ctx.facts.bodies[rp]["blocks"]) > 20:
-            inner.append(rp)
-    inner = sorted(set(inner))
+    for n in sorted(reachable_bodies(ctx.facts, [serve])):
+        b = ctx.facts.bodies[n]
+        if b["kind"] not in ("fn", "assocfn") or n == serve:
+            continue
+        tys = [b["locals"][i]["s"] for i in range(1, b["arg_count"] + 1)]
+        if not (any("http::Method" in x for x in tys) and any("HeaderMap" in x for x in tys)):
+            continue
+        a = ctx.facts.adts.get(b["locals"][0]["s"].split("<")[0])
+        if a and a.get("local") and a["kind"] == "enum" and any(any(f["ty"].startswith("http::Response<") for f in v["fields"]) for v in a["variants"]):
+            inner.append(n)
     if len(inner) != 1:
-        raise FailClosed("expected one large crate-local callee of `serve` (the trait-object inner function), found %r" % inner)
+        raise FailClosed("expected one crate-local function (method, headers) -> instruction enum reachable from `serve`, found %r" % inner)
     return serve, inner[0]
 
 
